@@ -132,3 +132,64 @@ def zscore(n, rb, cb, tb):
 
 def pval_from_z(z):
     return 2 * (1 - ndtr(np.abs(z)))
+
+
+# ------------------------------------------------------------------ respondent-level variance
+
+
+def _union_mask(o, sel, free, dims_fixed):
+    """Union over the addends of fixed subtotal elements of the eligibility mask."""
+    import itertools
+
+    choices = []
+    for d in dims_fixed:
+        e = sel[d]
+        choices.append(list(e[1]) if isinstance(e, tuple) else [e])
+    m = np.zeros(o.N, dtype=bool)
+    for combo in itertools.product(*choices):
+        full = dict(sel)
+        for d, b in zip(dims_fixed, combo):
+            full[d] = b
+        for d in free:
+            full[d] = o._first_base(sel.get(d, 0))
+        m |= o.mask(full, free)
+    return m
+
+
+def indicator(o, sel):
+    """Per-respondent signed membership (+1 addends, -1 subtrahends, 0 otherwise) of a cell."""
+    import itertools
+
+    dims = sorted(sel)
+    terms = [o._terms(sel[d]) for d in dims]
+    ind = np.zeros(o.N)
+    for combo in itertools.product(*terms):
+        sg = 1
+        full = {}
+        for d, (s, b) in zip(dims, combo):
+            sg *= s
+            full[d] = b
+        ind += sg * o.mask(full).astype(float)
+    return ind
+
+
+def cell_variance(V, r, c, direction):
+    """(variance, weighted base, proportion) of the signed indicator over the base."""
+    o = V.o
+    sel = V.sel(r, c)
+    free = {"row": (V.C,), "col": (V.R,), "table": (V.R, V.C)}[direction]
+    fixed = [d for d in sel if d not in free]
+    for d in fixed:
+        if isinstance(sel[d], tuple) and sel[d][2]:
+            return NAN, NAN, NAN
+    if V.is_diff(r) and V.is_diff(c):
+        return NAN, NAN, NAN
+    bm = _union_mask(o, sel, free, fixed)
+    w = o.w[bm]
+    W = float(w.sum())
+    if W == 0:
+        return NAN, W, NAN
+    ind = indicator(o, sel)[bm]
+    p = float((w * ind).sum() / W)
+    var = float((w * (ind - p) ** 2).sum() / W)
+    return var, W, p
